@@ -1,6 +1,7 @@
 package main
 
 import (
+	"os"
 	"fmt"
 	"go/ast"
 	"go/parser"
@@ -89,6 +90,9 @@ func (e *Exec) evalClause(text string, env *SpecEnv) (Term, error) {
 func (e *Exec) valTerm(env *SpecEnv, v Val) (t Term, err error) {
 	defer func() {
 		if r := recover(); r != nil {
+			if os.Getenv("JDVC_PANIC") != "" {
+				panic(r)
+			}
 			err = fmt.Errorf("%v", r)
 		}
 	}()
@@ -102,6 +106,9 @@ func (e *Exec) valTerm(env *SpecEnv, v Val) (t Term, err error) {
 func (e *Exec) evalExpr(x ast.Expr, env *SpecEnv) (v Val, err error) {
 	defer func() {
 		if r := recover(); r != nil {
+			if os.Getenv("JDVC_PANIC") != "" {
+				panic(r)
+			}
 			err = fmt.Errorf("%v", r)
 		}
 	}()
@@ -340,7 +347,7 @@ func (e *Exec) evalExpr(x ast.Expr, env *SpecEnv) (v Val, err error) {
 			vis := env.st.cell[env.rt.iter.visRoot].T
 			return termVal(App(SBool, "select", vis, k)), nil
 		}
-		if id.Name == "forallInt" || id.Name == "existsInt" || id.Name == "forallKey" {
+		if id.Name == "forallInt" || id.Name == "existsInt" || id.Name == "forallKey" || id.Name == "forallAnyKey" {
 			return e.evalQuant(id.Name, x, env)
 		}
 		if id.Name == "same" || id.Name == "samePE" {
@@ -428,7 +435,7 @@ func (e *Exec) specCall(st *State, fn *ssa.Function, args []Term) (Term, error) 
 		}
 		firstUse := !e.declared[name]
 		e.declareFun(name, ss, rs)
-		if c := e.p.Contracts[key]; firstUse && c != nil && c.Opaque && (!e.p.specRec[key] || c.Axiom) {
+		if c := e.p.Contracts[key]; firstUse && c != nil && c.Opaque && !c.Trusted && (!e.p.specRec[key] || c.Axiom) {
 			// definitional axiom: forall x. f(x) = body(x), triggered by f(x)
 			var bound []Term
 			var binders []string
@@ -466,6 +473,11 @@ func (e *Exec) specCall(st *State, fn *ssa.Function, args []Term) (Term, error) 
 		if e.binder > 0 {
 			return app, nil
 		}
+		if c := e.p.Contracts[key]; c != nil && c.Trusted {
+			// fully uninterpreted: the definition is outside the spec subset (native code only)
+			e.trusted["spec function "+key+" is uninterpreted (defined natively only)"] = true
+			return app, nil
+		}
 		if d, seen := e.specApps[app.S]; seen && d <= e.unfold && e.relevant(e.specAppBlk[app.S], e.curBlock) {
 			return app, nil
 		}
@@ -494,6 +506,9 @@ func (e *Exec) runPure(st *State, fn *ssa.Function, args []Term) (Term, error) {
 	fr, err := e.newFrame(fn, nil)
 	if err != nil {
 		return Term{}, err
+	}
+	if len(fr.loops) > 0 {
+		return Term{}, fmt.Errorf("spec function %s contains a loop: outside the spec subset", key)
 	}
 	scratch := st.clone()
 	for i, p := range fn.Params {
@@ -541,16 +556,23 @@ func (fr *Frame) specBuiltin(st *State, pc Term, name string, args []Val, pos to
 			return termVal(e.name("qf", T(SBool, "(forall ((%s Int)) %s)", q.S, Implies(rng, body.T).S))), true
 		}
 		return termVal(e.name("qe", T(SBool, "(exists ((%s Int)) %s)", q.S, And(rng, body.T).S))), true
-	case "forallKey":
+	case "forallKey", "forallAnyKey":
 		a := e.toTerm(st, args[0])
-		b := e.toTerm(st, args[1])
-		f := args[2]
+		b := a
+		f := args[len(args)-1]
+		if name == "forallKey" {
+			b = e.toTerm(st, args[1])
+		}
 		if f.K != vClo {
 			e.fail("%s: %s needs a function literal", fr.key, name)
 			return termVal(True), true
 		}
 		e.nfresh++
-		q := Term{fmt.Sprintf("q!%d", e.nfresh), SString}
+		ksort := SString
+		if d := e.p.U.DT(a.Sort); d != nil && d.Kind == "map" {
+			ksort = d.Key
+		}
+		q := Term{fmt.Sprintf("q!%d", e.nfresh), ksort}
 		e.binder++
 		body, ok := fr.inline(st.clone(), True, f.Fn, []Val{termVal(q)}, f.Binds, pos)
 		e.binder--
@@ -559,7 +581,7 @@ func (fr *Frame) specBuiltin(st *State, pc Term, name string, args []Val, pos to
 			return termVal(True), true
 		}
 		dom := Or(e.p.U.MHas(a, q), e.p.U.MHas(b, q))
-		return termVal(e.name("qk", T(SBool, "(forall ((%s String)) %s)", q.S, Implies(dom, body.T).S))), true
+		return termVal(e.name("qk", T(SBool, "(forall ((%s %s)) %s)", q.S, ksort, Implies(dom, body.T).S))), true
 	case "forallStr", "existsStr":
 		f := args[0]
 		if f.K != vClo {
@@ -618,6 +640,10 @@ func (e *Exec) evalQuant(name string, x *ast.CallExpr, env *SpecEnv) (Val, error
 	vn := fl.Type.Params.List[0].Names[0].Name
 	e.nfresh++
 	sort := SInt
+	if name == "forallAnyKey" {
+		ts = append(ts, ts[0])
+		name = "forallKey"
+	}
 	if name == "forallKey" {
 		sort = SString
 		if d := u.DT(ts[0].Sort); d != nil && d.Kind == "map" {
